@@ -75,7 +75,7 @@ public:
    */
   static Eigen::Matrix3<Scalar> calc_S1inv(TRefIn a_in)
   {
-    using std::sqrt, std::sin, std::cos;
+    using std::sqrt, std::tan;
     const Scalar th2 = a_in.squaredNorm();
 
     const auto A = [&]() -> Scalar {
@@ -84,7 +84,7 @@ public:
         return Scalar(1) / Scalar(12) + th2 / Scalar(720);
       } else {
         const Scalar th = sqrt(th2);
-        return Scalar(1) / th2 - (Scalar(1) + cos(th)) / (Scalar(2) * th * sin(th));
+        return Scalar(1) / th2 - Scalar(1) / (Scalar(2) * th * tan(th / Scalar(2)));
       }
     }();
     Eigen::Matrix3<Scalar> M;
